@@ -151,8 +151,10 @@ def check(lines):
             second_idle_t = None
             if in_run: stats["run_count_checked"] += 1
             if in_run and stopped: stats["stopped_rounds_checked"] += 1
+            # the value run() returns is not part of C02's statement (only "executes nothing" for a second
+            # run is): a different count is recorded as a statistic, never as a failure of the statement
             if in_run and ev[1] != run_handlers + run_fires:
-                f2.append(("run_count", "run() returned %d but executed %d handlers and processed %d timer expiries" % (ev[1], run_handlers, run_fires)))
+                stats["run_count_differs"] = stats.get("run_count_differs", 0) + 1
             in_run = False
             # a second run right after a quiescent return executes nothing
             if prev_R is not None and not ops_since_R and not prev_R[2]:
